@@ -449,6 +449,9 @@ type runOut struct {
 	stops    []stopPoint
 	marks    int
 	snaps    []snap // ClientConf at the end marker of each store
+	// post: ClientConf right after every relevant system call of a store that ran after an
+	// injected error / short write (what a crash at that instant would leave behind)
+	post map[int]snap
 	report   []childLine
 	exited   bool
 	exitCode int
@@ -988,6 +991,12 @@ func (w *worker) trace(seed uint64, inj injection, postHashes bool) *runOut {
 						s := readSnap(confPath)
 						out.stops[p.idx].Post = s.hash()
 					}
+					if out.injected && (inj.action == actError || inj.action == actShort) && out.stops[p.idx].Store >= 0 {
+						if out.post == nil {
+							out.post = map[int]snap{}
+						}
+						out.post[p.idx] = readSnap(confPath)
+					}
 					if p.killExit {
 						if inj.action == actKillExit {
 							out.injected = true
@@ -1482,8 +1491,20 @@ func (w *worker) runCase(si *seqInfo, id caseID) *caseOut {
 				break
 			}
 			if ll.Raw != final.hash() {
-				co.herr = fmt.Sprintf("case %v: the restart child read other bytes (%s) than the tracer (%s)", id, ll.Raw, final.hash())
-				return co
+				// the restarted client did not load what the crash left: its start-up changed the file
+				// (recovery logic). What it left must again be the previous or the new configuration.
+				after := readSnap(filepath.Join(w.dir, "ClientConf"))
+				if after.ok && after.hash() == ll.Raw && which(&after, i) != "other" {
+					tr("restart: start-up replaced the file by the %s configuration", which(&after, i))
+				} else if after.ok && after.hash() == ll.Raw {
+					co.sig = fmt.Sprintf("C20/restart-published-other-file/%s/%s", act, sp.Sys)
+					co.msg = fmt.Sprintf("after %s during %s the file ClientConf was the %s configuration, but the start-up of the restarted client replaced it: %s", o.injNote, stName, wh, describeOther(&after, i))
+					tr("verdict: %s: %s", co.sig, co.msg)
+					break
+				} else {
+					co.herr = fmt.Sprintf("case %v: the restart child read other bytes (%s) than the tracer (%s)", id, ll.Raw, final.hash())
+					return co
+				}
 			}
 			tr("restart: loaded, generation %d, %d decoys, marshalled length %d", ll.Gen, ll.Decoys, ll.MemLen)
 		} else {
@@ -1550,7 +1571,24 @@ func (w *worker) runCase(si *seqInfo, id caseID) *caseOut {
 			co.msg = fmt.Sprintf(f, a...)
 			tr("verdict: %s: %s", co.sig, co.msg)
 		}
+		// After the injected failure the store goes on (clean-up, retry, fallback). A crash in that
+		// stretch is as possible as anywhere else: after every system call of the rest of this store
+		// the file must still be the previous or the new configuration.
+		for idx := id.stop; idx < len(o.stops) && co.sig == ""; idx++ {
+			ps, ok := o.post[idx]
+			if !ok || o.stops[idx].Store != i {
+				continue
+			}
+			if which(&ps, i) == "other" {
+				kind := "torn-window"
+				if !ps.ok {
+					kind = "missing-window"
+				}
+				fail(fmt.Sprintf("C20/%s/%s/%s", kind, act, sp.Sys), "after %s during %s the store went on, and right after its %s %s a crash would leave ClientConf neither the previous nor the new configuration: %s", o.injNote, stName, o.stops[idx].Sys, o.stops[idx].File, describeOther(&ps, i))
+			}
+		}
 		switch {
+		case co.sig != "":
 		case wh == "other":
 			kind := "torn-file"
 			if !snapI.ok {
